@@ -311,7 +311,10 @@ class BaseFileLock(abc.ABC):
         self._lock_counter = max(0, self._lock_counter - 1)
 
     def __enter__(self: FileLockT) -> FileLockT:
-        self.acquire()
+        # With a default timeout set, acquire can give up: never enter
+        # the block without actually holding the lock
+        if not self.acquire():
+            raise TimeoutError("Failed to acquire file lock:", self._lock_file)
         return self
 
     def __exit__(self, *_exc: Any) -> None:
